@@ -22,8 +22,16 @@ A program (JSON-able dict):
                "expire.b.k.ttl"        cache.expire(key, ttl)
                "setx.b.k.v.ttl"        cache.set(key, v, expire=ttl, exist=True)
                "setnx.b.k.v.ttl"]      cache.set(key, v, expire=ttl, exist=False)
+               "with.<i>" ... "end"    a NESTED `async with T[i]:` on shared context object i = ONE `cache.transaction(mode, timeout)`
+                                       object per i, created once per run and entered as often as the program says
+               "with.-" ... "end"      a nested `async with cache.transaction(mode, timeout):` (an object of its own)
+               "with.d" ... "end"      a call of a function decorated with `@cache.transaction(mode, timeout)` whose body is ...
+              (the tokens between a `with` and its `end` are the nested block's body; blocks nest to any depth)
               `incr` with a ttl, `expire`, `setx`/`setnx` are read-modify-writes: each can issue a backend READ of its own
               (get / exists) after the key's lock was taken, and that read can fail.
+    obj       (optional) i: the OUTERMOST block is `async with T[i]:` on shared context object i, so a `with.<i>` in the body
+              re-enters the very object whose transaction is running; with form "decor" the function is decorated with `@T[i]`
+              (whose __call__ builds a new object per call: T[i] itself is then first entered by a `with.<i>` of the body)
     holders   [{"b": b, "k": k, "end": "rollback"|"commit"}, ...]   contending holders: each is ANOTHER TASK running a real
               transaction block (same mode, long timeout) that has written key k of backend b - so it holds that key's lock
               (the backend's global lock when serializable) - and is parked on an asyncio.Event.  "rollback": it wrote
@@ -304,6 +312,38 @@ def holder_lock(prog, h):
     return (h["b"], 0 if prog["mode"] == "serializable" else h["k"] + 1)
 
 
+def matching_end(body, i):
+    """index of the `end` that closes the `with` at index i"""
+    depth = 0
+    for j in range(i, len(body)):
+        h = body[j].split(".")[0]
+        if h == "with":
+            depth += 1
+        elif h == "end":
+            depth -= 1
+            if depth == 0:
+                return j
+    raise ValueError(f"`{body[i]}` at {i} is never closed")
+
+
+def valid_body(body) -> bool:
+    depth = 0
+    for c in body:
+        h = c.split(".")[0]
+        if h == "with":
+            depth += 1
+        elif h == "end":
+            depth -= 1
+            if depth < 0:
+                return False
+    return depth == 0
+
+
+def model_obj(prog):
+    """the context object of the outermost block as the model sees it: the decorator form builds an object of its own per call"""
+    return prog.get("obj") if prog.get("form") != "decor" else None
+
+
 # backend commands that can change the data of a store: none of them may reach a backend when the body failed
 WRITE_COMMANDS = {"set", "set_many", "incr", "delete", "delete_many", "delete_match", "expire", "clear", "set_raw", "incr_bits",
                   "slice_incr", "set_add", "set_remove", "set_pop"}
@@ -432,50 +472,82 @@ async def _run(prog, faults, rels):
     outs = []
     state = {"body_end": None, "body_raised": False, "starts": []}
 
+    if not valid_body(prog["body"]):
+        raise ValueError(f"unbalanced with/end in {prog['body']}")
+    TX = {}
+
+    def tx_obj(i):
+        """shared context object i: ONE TransactionContextDecorator, entered as often as the program says"""
+        if i not in TX:
+            TX[i] = cache.transaction(MODES[mode], timeout=timeout_s)
+        return TX[i]
+
+    async def run_tokens(i, stop):
+        tokens = prog["body"]
+        while i < stop:
+            c = tokens[i]
+            state["starts"].append(REC.n)
+            w = c.split(".")
+            if w[0] == "with":
+                j = matching_end(tokens, i)
+                if w[1] == "d":
+                    @cache.transaction(MODES[mode], timeout=timeout_s)
+                    async def inner_decorated():
+                        await run_tokens(i + 1, j)
+                    await inner_decorated()
+                elif w[1] == "-":
+                    async with cache.transaction(MODES[mode], timeout=timeout_s):
+                        await run_tokens(i + 1, j)
+                else:
+                    async with tx_obj(int(w[1])):
+                        await run_tokens(i + 1, j)
+                state["starts"].append(REC.n)          # the `end` token
+                i = j + 1
+                continue
+            if w[0] == "set":
+                b, k, v = int(w[1]), int(w[2]), int(w[3])
+                r = await cache.set(kname(b, k), v, expire=None if w[4] == "-" else int(w[4]) * TICK)
+                outs.append("T" if r is True else "F" if r is False else f"?{r!r}")
+            elif w[0] == "incr":
+                if len(w) > 3 and w[3] != "-":
+                    r = await cache.incr(kname(int(w[1]), int(w[2])), expire=int(w[3]) * TICK)
+                else:
+                    r = await cache.incr(kname(int(w[1]), int(w[2])))
+                outs.append(f"n{r}")
+            elif w[0] == "expire":
+                r = await cache.expire(kname(int(w[1]), int(w[2])), int(w[3]) * TICK)
+                outs.append("U" if r is None else f"?{r!r}")
+            elif w[0] in ("setx", "setnx"):
+                b, k, v = int(w[1]), int(w[2]), int(w[3])
+                r = await cache.set(kname(b, k), v, expire=None if w[4] == "-" else int(w[4]) * TICK, exist=w[0] == "setx")
+                outs.append("T" if r is True else "F" if r is False else f"?{r!r}")
+            elif w[0] == "get":
+                r = await cache.get(kname(int(w[1]), int(w[2])))
+                outs.append("-" if r is None else f"v{r}")
+            elif w[0] == "del":
+                r = await cache.delete(kname(int(w[1]), int(w[2])))
+                outs.append("T" if r is True else "F" if r is False else f"?{r!r}")
+            elif w[0] == "setmany":
+                b = int(w[1])
+                pairs = {kname(b, int(kv.split(":")[0])): int(kv.split(":")[1]) for kv in w[3].split("+")}
+                r = await cache.set_many(pairs, expire=None if w[2] == "-" else int(w[2]) * TICK)
+                outs.append("U" if r is None else f"?{r!r}")
+            elif w[0] == "delmany":
+                b = int(w[1])
+                r = await cache.delete_many(*[kname(b, int(k)) for k in w[2].split("+")])
+                outs.append("U" if r is None else f"?{r!r}")
+            elif w[0] == "adv":
+                CLOCK.advance(int(w[1]))
+                REC.adv += int(w[1])
+            elif w[0] == "raise":
+                raise BodyCancel() if prog.get("bexc") == "cancel" else BodyError()
+            else:
+                raise ValueError(f"unknown body command {c}")
+            i += 1
+
     async def body():
         try:
-            for c in prog["body"]:
-                state["starts"].append(REC.n)
-                w = c.split(".")
-                if w[0] == "set":
-                    b, k, v = int(w[1]), int(w[2]), int(w[3])
-                    r = await cache.set(kname(b, k), v, expire=None if w[4] == "-" else int(w[4]) * TICK)
-                    outs.append("T" if r is True else "F" if r is False else f"?{r!r}")
-                elif w[0] == "incr":
-                    if len(w) > 3 and w[3] != "-":
-                        r = await cache.incr(kname(int(w[1]), int(w[2])), expire=int(w[3]) * TICK)
-                    else:
-                        r = await cache.incr(kname(int(w[1]), int(w[2])))
-                    outs.append(f"n{r}")
-                elif w[0] == "expire":
-                    r = await cache.expire(kname(int(w[1]), int(w[2])), int(w[3]) * TICK)
-                    outs.append("U" if r is None else f"?{r!r}")
-                elif w[0] in ("setx", "setnx"):
-                    b, k, v = int(w[1]), int(w[2]), int(w[3])
-                    r = await cache.set(kname(b, k), v, expire=None if w[4] == "-" else int(w[4]) * TICK, exist=w[0] == "setx")
-                    outs.append("T" if r is True else "F" if r is False else f"?{r!r}")
-                elif w[0] == "get":
-                    r = await cache.get(kname(int(w[1]), int(w[2])))
-                    outs.append("-" if r is None else f"v{r}")
-                elif w[0] == "del":
-                    r = await cache.delete(kname(int(w[1]), int(w[2])))
-                    outs.append("T" if r is True else "F" if r is False else f"?{r!r}")
-                elif w[0] == "setmany":
-                    b = int(w[1])
-                    pairs = {kname(b, int(kv.split(":")[0])): int(kv.split(":")[1]) for kv in w[3].split("+")}
-                    r = await cache.set_many(pairs, expire=None if w[2] == "-" else int(w[2]) * TICK)
-                    outs.append("U" if r is None else f"?{r!r}")
-                elif w[0] == "delmany":
-                    b = int(w[1])
-                    r = await cache.delete_many(*[kname(b, int(k)) for k in w[2].split("+")])
-                    outs.append("U" if r is None else f"?{r!r}")
-                elif w[0] == "adv":
-                    CLOCK.advance(int(w[1]))
-                    REC.adv += int(w[1])
-                elif w[0] == "raise":
-                    raise BodyCancel() if prog.get("bexc") == "cancel" else BodyError()
-                else:
-                    raise ValueError(f"unknown body command {c}")
+            await run_tokens(0, len(prog["body"]))
         except BaseException:
             state["body_raised"] = True
             raise
@@ -487,13 +559,14 @@ async def _run(prog, faults, rels):
     REC.start(faults, exc_cls, before_cmd if holders else None, base_cls)
     exc = "none"
     try:
+        outer = tx_obj(prog["obj"]) if prog.get("obj") is not None else cache.transaction(MODES[mode], timeout=timeout_s)
         if prog.get("form") == "decor":
-            @cache.transaction(MODES[mode], timeout=timeout_s)
+            @outer
             async def decorated():
                 await body()
             await decorated()
         else:
-            async with cache.transaction(MODES[mode], timeout=timeout_s):
+            async with outer:
                 await body()
     except (InjectedInteraction, InjectedRuntime) as e:
         exc = f"fault:{e.idx}"
@@ -625,7 +698,8 @@ def model_line(prog, faults, uprio, rels=()) -> str:
         f"rb={RB_LOOP}",
         "data=" + dash(f"{b}.{k}.{v}.{'-' if ttl is None else ttl}" for b, k, v, ttl in prog["data"]),
         "flocks=" + dash(f"{b}.{lk}" for b, lk in prog["flocks"]),
-        "body=" + dash(prog["body"], ";"),
+        "body=" + dash(("with.-" if c == "with.d" else c for c in prog["body"]), ";"),
+        "obj=" + ("-" if model_obj(prog) is None else str(model_obj(prog))),
         "probe=%d.%d.%d" % PROBE,
         "step=0",
         "hlocks=" + dash(f"{b}.{lk}" for b, lk in hl),
